@@ -122,6 +122,13 @@ pub fn bellerophon<F: RawFloat, const FORMAT: u128>(num: &Number, lossy: bool) -
     // Normalize the floating point (and the errors).
     let shift = normalize(&mut fp);
     errors <<= shift;
+    if num.many_digits {
+        // The significant digits were truncated, not rounded, so the true value
+        // lies in `[mantissa, mantissa + 1)`. Relative to the parsed mantissa
+        // this is an error below `2^(lz - 63)`, that is, below `2^(lz + 1)`
+        // units in the last place of the normalized 64-bit significand.
+        errors += (2 * error_scale()) << num.mantissa.leading_zeros();
+    }
     fp.exp += F::EXPONENT_BIAS;
 
     // Check for literal overflow, even with halfway cases.
